@@ -22,11 +22,11 @@ var purityOwners = map[string][]string{
 	"common/reedsolomon":  {"C04", "C05", "C06"},
 	"common/detector":     {"C06", "C09"},
 	"common/util":         {"C19", "C20"},
-	"qrcode":              {"C01", "C06", "C07", "C09", "C12", "C14"},
+	"qrcode":              {"C01", "C06", "C07", "C09", "C12", "C13", "C14", "C15"},
 	"qrcode/decoder":      {"C01", "C05", "C06", "C15"},
-	"qrcode/encoder":      {"C01", "C07", "C12", "C13"},
+	"qrcode/encoder":      {"C01", "C07", "C12", "C13", "C15"},
 	"qrcode/detector":     {"C06", "C09"},
-	"datamatrix":          {"C02", "C06", "C08", "C09", "C12", "C14"},
+	"datamatrix":          {"C02", "C06", "C08", "C09", "C12", "C13", "C14"},
 	"datamatrix/decoder":  {"C02", "C05", "C06"},
 	"datamatrix/encoder":  {"C02", "C08", "C12", "C13"},
 	"datamatrix/detector": {"C06", "C09"},
